@@ -286,12 +286,14 @@ def run(ctx):
             tr2 = [[e, decodes(cur, e)] for e in tries]
             enc2 = next((e for e, ok in tr2 if ok), None)
             noop = rng.random() < .35
-            case2 = dict(case, second_mutate={"noop": noop, "detected": enc2})
+            bak2 = "second.bak" if rng.random() < .5 else None      # a backup is owed whenever the block exits normally, edits or not
+            case2 = dict(case, second_mutate={"noop": noop, "detected": enc2, "backup": bak2})
             if enc2 != detected: res.count("second_pass_detects_other_encoding")
             del w.rec.log[:]; w.rec.wcalls = 0
             exit2 = [None]; ok2 = [True]
             try:
-                with simfile.mutate(outpath, try_encodings=tries, filesystem=w.fs) as sf:
+                with simfile.mutate(outpath, try_encodings=tries, filesystem=w.fs, **({"backup_filename": w.path(bak2)} if bak2 else {})) as sf:
+                    entry2 = objs.dump(sf)
                     if not noop:
                         sf["SUBTITLE"] = "again " + rng.choice(REPERTOIRE[enc2])
                         if not in_domain(sf, enc2):
@@ -320,8 +322,18 @@ def run(ctx):
                 w.close(); continue
             if out2 != "returned":
                 res.violation(case2, "second mutate of the saved file raised", impl=out2, saved_bytes=cur.decode("latin-1")[:600]); w.close(); continue
-            if {k for k in set(after) | set(after2) if after.get(k) != after2.get(k)} - {outname}:
-                res.violation(case2, "second mutate touched a file other than the one it was given"); w.close(); continue
+            if {k for k in set(after) | set(after2) if after.get(k) != after2.get(k)} - {outname, bak2}:
+                res.violation(case2, "second mutate touched a file other than the ones it was given"); w.close(); continue
+            if bak2:
+                try:
+                    gotb = objs.dump(cls(string=after2[bak2].decode(enc2)))
+                    expb = entry2 if ext == ".sm" else c02.notes_last(entry2)
+                except KeyError:
+                    res.violation(case2, "the block exited normally and a backup was requested, but no backup file was written"); w.close(); continue
+                except Exception as e:
+                    res.violation(case2, "the backup does not decode/parse in the encoding the file was read in", impl=core.exc_name(e)); w.close(); continue
+                if gotb != expb:
+                    res.violation(case2, "the backup does not parse to the simfile as it stood at block entry", impl=c01._diff(gotb, expb)); w.close(); continue
             if noop and enc2 == detected and after2.get(outname) != cur:
                 res.violation(case2, "a no-op mutate changed the bytes of a file mutate had written"); w.close(); continue
             try:
@@ -332,7 +344,7 @@ def run(ctx):
                                   impl=c01._diff(got2, exp2)); w.close(); continue
             except Exception as e:
                 res.violation(case2, "after a second mutate the file does not decode in the encoding it was read in (%s)" % enc2, impl=core.exc_name(e)); w.close(); continue
-            reqs.append({"op": "mutate.run", "input": outpath, "output": None, "backup": None, "tries": tr2,
+            reqs.append({"op": "mutate.run", "input": outpath, "output": None, "backup": w.path(bak2) if bak2 else None, "tries": tr2,
                          "body": "returns", "problem": "none", "files": [w.path(n) for n in after]})
             metas.append((case2, out2, log2, {w.path(k): v for k, v in after.items()}, {w.path(k): v for k, v in after2.items()}, enc2, None, exit2[0], None))
             w.close()
